@@ -59,6 +59,12 @@ CHECKS = {
     "C19": ("spec/FilterDefs.tla definition space restricted to the quantifier's forms; read-back compared with the supplied definition on the original set, disabled, reloaded, and when given to updatefilter on a disabled renamed filter; open deviations predicted exactly (comma splitting, address conditions)",
             "get_filter_conditions/actions/matchtype return the supplied definition in every stage, or exactly what a listed open deviation predicts",
             "tuple shapes of the read-back API transcribed from docstrings/tests", "4/C19"),
+    "C04": ("SieveGrammar!Ser / RoundTripOf model-checked on every accepted regular behaviour (canonical serialisation re-reads to the same tree and is a fixed point); on the code: tosieve of every accepted enumerated/generated script is re-parsed, trees compared, second serialisation compared; the serialised outputs are themselves judged by TLC (SieveTrace); value classes aimed at quoting edge cases in every string position",
+            "every accepted regular script of the enumerated/generated domain serialises to text that the parser and the reference recogniser accept with the same tree, and serialising again reproduces the text",
+            "irregular (dontcare) inputs not judged; value classes in harness/render.py", "4/C04"),
+    "C20": ("SieveGrammar instantiated with an extended table (constant Custom): one generated argument definition per run, every use up to the bound enumerated by TLC (SieveEnum), class built in README format and registered with add_commands (after an earlier registration under the same name) in fresh worker processes; verdict, tree, gating, round trip and named-argument recording compared",
+            "for every generated definition and every enumerated use: accepted exactly when the definition allows it, arguments recorded under the defined names, extension gated, output re-parses to the same tree; an unregistered name stays unknown",
+            "definitions sampled (seeded) from the documented shape; uses exhaustive within the bound", "4/C20"),
 }
 
 NOT_YET = {}
